@@ -367,7 +367,9 @@ def match_known(known, prop_id, res, trace):
 # evidence
 
 def write_evidence(prop_id, payload):
-    d = os.path.join(VERIF_DIR, "evidence")
+    # evidence/ holds only what was measured on /repo itself; runs against a scratch copy
+    # (sensitivity self-test, seeded changes through AK_REPO) write elsewhere
+    d = os.path.join(VERIF_DIR, "evidence" if AK_REPO == "/repo" else "scratch-evidence")
     os.makedirs(d, exist_ok=True)
     path = os.path.join(d, f"{prop_id}.json")
     tmp = path + ".tmp"
